@@ -164,7 +164,30 @@ def check_config(ctx, F, tag):
                        "set_run_unchecked(%s, %s) dominated by start >= len(): %s, usize::MAX - len >= start: %s" % (tstr(st_), tstr(ln), g1, g2))
             else:
                 ctx.ob("C16.R2.unchecked-call-discharged", key + tag, where, False, "guard-dominance", "no contract table entry for this safe call site")
-    ctx.floor("unchecked-mutator-call-sites" + tag, 5)
+    # the two checked entry points must be among the sites; the rest may be merged by a clean-up
+    ctx.floor("unchecked-mutator-call-sites" + tag, 3)
+    # the same guards, asked of the mutations themselves: whatever try_set does to the builder (a call to an unchecked mutator, a
+    # helper inlined by the normaliser, direct stores) happens behind the range tests -- "a refused call leaves the builder unchanged"
+    from guards import fact_add_fits
+    for fn in (SB + "::try_set", RB + "::try_set"):
+        b = F.body(fn)
+        sites = mutation_sites(b, 1, by_ref=True)
+        bad = []
+        for bi, kind, what, sp in sites:
+            fs = facts_at(b, bi)
+            if fn.startswith(SB):
+                idx = ("param", 1, b.local_name(2))
+                g = [any(f[0] == "bool" and f[2] is False and m(Call(SB + "::is_full", Param(0)), f[1]) for f in fs),
+                     any(f[0] == "cmp" and f[1] == "Ge" and core(f[2]) == idx and m(Call(SB + "::next_index", Param(0)), f[3]) for f in fs),
+                     any(f[0] == "cmp" and f[1] == "Lt" and core(f[2]) == idx and m(Call(SB + "::universe", Param(0)), f[3]) for f in fs)]
+            else:
+                st_, ln = ("param", 1, b.local_name(2)), ("param", 2, b.local_name(3))
+                g = [any(f[0] == "cmp" and f[1] == "Ge" and core(f[2]) == st_ and m(Call(RB + "::len", Param(0)), f[3]) for f in fs),
+                     fact_add_fits(fs, st_, ln)]
+            if not all(g):
+                bad.append("%s %s at %s (guards %s)" % (kind, what.split("::")[-1], loc(sp), g))
+        ctx.ob("C16.R2.try-set-mutations-guarded", fn + tag, loc(b.raw["span"]), bool(sites) and not bad, "guard-dominance",
+               "%d mutations of the builder in try_set; not behind all range tests: %s" % (len(sites), bad[:3]))
 
     # ---------------- R3 co-mutation
     check_comutation(ctx, F, tag)
@@ -173,12 +196,13 @@ def check_config(ctx, F, tag):
     c07.check_rl_block_fit(ctx, F, tag, "C16.R6")      # "builds what was accepted": an accepted run is encoded whole
 
     # ---------------- R4 set_len only extends; observers are getters
-    b = F.body(RB + "::set_len")
-    for bi, si, st in field_store_blocks(b, RB, "len"):
-        fs = facts_at(b, bi)
-        val = b.term_of_rvalue(st["rv"])
-        ok = any(f[0] == "cmp" and f[1] == "Gt" and core(f[2]) == core(val) and m(Call(RB + "::len", Param(0)), f[3]) for f in fs) and core(val)[0] == "param"
-        ctx.ob("C16.R4.set-len-only-extends", RB + "::set_len" + tag, loc(st["sp"]), ok, "guard-dominance", "len := %s under `len > self.len()`: %s" % (tstr(val), ok))
+    check_set_len_extends(ctx, F, tag)
+    # ---------------- R7 "for all (universe, capacity) parameters": the builders' own arithmetic on caller-supplied sizes is bounded
+    # (A3, the builder functions only; the same analysis decides C09 for the whole crate)
+    from core import Relabel
+    if not isinstance(ctx, Relabel):
+        import c09
+        c09.check_raw_values(Relabel(ctx, {"C09.R1.raw-value-bounded": ("C16.R7.builder-arithmetic-total", lambda k: "Builder::" in k.split("|")[0])}), F, tag)
     getters = {SB + "::len": SelfField("len"), SB + "::next_index": SelfField("next"), RB + "::len": SelfField("len"), RB + "::count_ones": SelfField("ones"),
                SB + "::capacity": Call(lambda n: n.endswith("::count_ones"), SelfField("data")),
                SB + "::universe": Call(lambda n: n.endswith("::len"), SelfField("data")),
@@ -186,6 +210,26 @@ def check_config(ctx, F, tag):
     for g, p in getters.items():
         b = F.body(g)
         ctx.ob("C16.R4.observer-is-getter", g + tag, loc(b.raw["span"]), m(p, b.term_of_local(0)), "term-shape", "%s() = %s" % (g.split("::")[-1], tstr(b.term_of_local(0))), nontrivial=False)
+
+
+def check_set_len_extends(ctx, F, tag, rule="C16.R4.set-len-only-extends"):
+    """set_len(n) with n <= len() is documented as having no effect: every mutation of the builder in it -- the store of the length, and
+    the flush of the pending run that goes with it -- is behind `n > self.len()`.  (With `>=` an equal length flushes the pending
+    run, so the next adjacent run is encoded separately: same bits, different representation.)"""
+    b = F.body(RB + "::set_len")
+    stores = field_store_blocks(b, RB, "len")
+    if not stores:
+        raise Undecided("anchor lost: %s::set_len does not store the length" % RB)
+    lenp = ("param", 1, b.local_name(2))
+    for k, (bi, kind, what, sp) in enumerate(mutation_sites(b, 1, by_ref=True)):
+        fs = facts_at(b, bi)
+        ok = any(f[0] == "cmp" and ((f[1] == "Gt" and core(f[2]) == lenp and m(Call(RB + "::len", Param(0)), f[3])) or
+                                    (f[1] == "Lt" and core(f[3]) == lenp and m(Call(RB + "::len", Param(0)), f[2]))) for f in fs)
+        ctx.ob(rule, "%s::set_len|%s %s#%d%s" % (RB, kind, what.split("::")[-1], k, tag), loc(sp), ok, "guard-dominance",
+               "%s %s in set_len is behind `len > self.len()`: %s" % (kind, what.split("::")[-1], ok))
+    for bi, si, st in stores:
+        val = b.term_of_rvalue(st["rv"])
+        ctx.ob(rule, RB + "::set_len|value" + tag, loc(st["sp"]), core(val) == lenp, "term-shape", "len := %s (the parameter)" % tstr(val), nontrivial=False)
 
 
 def check_noop_and_flush(ctx, F, tag, prefix="C16.R5"):
@@ -239,6 +283,8 @@ def check_comutation(ctx, F, tag, prefix="C16.R3"):
                 ctx.ob(prefix + ".co-mutation", "%s|%s.%s~%s#%d%s" % (b.name, adt.split("::")[-1], a, partner, k, tag), loc(st["sp"]), ok, "co-mutation",
                        "store to %s.%s %s a direct store to .%s on the same path (a callee counts only if it runs after the store and stores .%s on all of its paths)" % (adt.split("::")[-1], a, "is accompanied by" if ok else "is NOT accompanied by", partner, a))
         ctx.count("co-mutation-triggers-%s%s" % (adt.split("::")[-1], tag), n)
-    ctx.floor("co-mutation-triggers-RLBuilder" + tag, 3)
+    # (a clean-up may merge two stores of one function into one: the floor is the number of mutators that must still store, not
+    # the number of store statements counted on the pinned tree)
+    ctx.floor("co-mutation-triggers-RLBuilder" + tag, 2)
     ctx.floor("co-mutation-triggers-SparseBuilder" + tag, 1)
 
